@@ -236,6 +236,10 @@ Loop:
 		}
 
 		if r.Owner == nil {
+			if r.Type == codec.RspOk {
+				// the reply to an ASKING sent ahead of a redirected request
+				continue
+			}
 			select {
 			case EngineGlobal.clusterChan <- r.RspBody:
 			default:
